@@ -541,14 +541,18 @@ sa_addr_port_to_str(const sockaddr_storage_t *addr, char *buf,
 			goto err_out;
 		break;
 	case AF_INET6:
+		if (3 > buf_size) { /* '[' + ']' + zero. */
+			error = ENOSPC;
+			goto err_out;
+		}
 		error = sa_addr_to_str(addr, (buf + 1), (buf_size - 2),
 		    &size_ret);
 		if (0 != error)
 			goto err_out;
 		buf[0] = '[';
-		buf[size_ret + 0] = ']';
-		buf[size_ret + 1] = 0x00;
-		size_ret ++;
+		buf[size_ret + 1] = ']';
+		buf[size_ret + 2] = 0x00;
+		size_ret += 2;
 		break;
 	default:
 		return (EAFNOSUPPORT);
